@@ -49,6 +49,16 @@ func main() {
 		}
 		rep := runView(v, *seed, *n, *driver, *corpus)
 		writeReport(*out, rep)
+	case "execmodel":
+		// execmodel <view> <line>: real code output and the concrete line handed to the model
+		v, ok := views()[os.Args[2]]
+		if !ok {
+			os.Exit(2)
+		}
+		out, oracle, _, ml := safeExecModel(v, os.Args[3])
+		fmt.Fprintln(realStdout, out)
+		fmt.Fprintln(realStdout, ml)
+		fmt.Fprintln(realStdout, oracle)
 	case "probe":
 		probe()
 	case "exec":
